@@ -67,7 +67,7 @@ func gossipRuns(id, tier string) []gRun {
 	}
 	// C12: one malicious relay at every non-origin position
 	masks := []int{0, 1, 2, 4, 8, 16, 32, 63}
-	topos := []string{"path3", "triangle"}
+	topos := []string{"path3", "triangle", "cycle4"}
 	if tier == "thorough" {
 		masks = nil
 		for i := 0; i < 64; i++ {
@@ -82,8 +82,16 @@ func gossipRuns(id, tier string) []gRun {
 					continue // the genesis node hosts the ledger origin; adversary at every other position
 				}
 				for _, it := range []string{"vertex", "trx"} {
+					if t == "cycle4" && tier != "thorough" {
+						continue // quick tier: the 4-cycle is only used for the two-item replay runs below
+					}
 					out = append(out, gRun{fmt.Sprintf("%s/origin=%s/adv=%s/%s", t, origin, adv, it),
 						gnet.Cfg{Nodes: topoNodes[t], Edges: topologies[t], Origin: origin, Items: it, Adversary: adv, Masks: masks, Prop: "C12"}, 40})
+				}
+				// two items in a row: the adversary may replay, on the second item, genuine entries it has seen on the first
+				if t == "triangle" || t == "cycle4" {
+					out = append(out, gRun{fmt.Sprintf("%s/origin=%s/adv=%s/two-vertices+replay", t, origin, adv),
+						gnet.Cfg{Nodes: topoNodes[t], Edges: topologies[t], Origin: origin, Items: "then-second", Adversary: adv, Masks: []int{0, 64}, Prop: "C12"}, 60})
 				}
 			}
 		}
